@@ -57,6 +57,10 @@ pub struct Ctx {
     pub nops: usize,
 }
 
+fn max_judged_nv() -> usize {
+    std::env::var("VERIF_MAX_NV").ok().and_then(|s| s.parse().ok()).unwrap_or(800)
+}
+
 fn is_mutating(op: &str) -> bool {
     matches!(
         op,
@@ -264,6 +268,14 @@ impl Ctx {
                 }
                 format!("panic {}", msg)
             }
+        };
+        // states too large for the exact judge (quadratic specs on 2^1074-scaled integers) are not
+        // judged: the operation is reported as skipped and the history ends here
+        let r = if mutating && !self.dead && self.tri.nv() > max_judged_nv() {
+            self.dead = true;
+            "skip".to_string()
+        } else {
+            r
         };
         let _ = writeln!(self.out, "R {}", r);
         if mutating && !self.dead && r != "skip" && r != "unsupported" {
